@@ -210,31 +210,71 @@ def analyse(facts, tier):
             if sn == slot:
                 gf = guard_facts(he, b, st)
                 locc = st['loc']
-                okc = any(f[0] == 'or' and 'm_channelDisable[midCh]' in fact_str(f) and 'midCh' in fact_str(f) for f in gf) or any(f[0] == 'truth' and not f[2] and 'm_channelDisable' in fact_str(f) for f in gf)
+                # the negation of (.. && m_channelDisable[<channel>]): a disjunction with an alternative `!m_channelDisable[..]`, or that fact alone
+                def chan_off(f_):
+                    return f_[0] == 'truth' and not f_[2] and mentions(f_[1], member_named('m_channelDisable'))
+                okc = any(f[0] == 'or' and any(chan_off(l_) for alt in f[1] for l_ in alt) for f in gf) or any(chan_off(f) for f in gf)
         obls.append(Obl('C07.R3', he.name, 'disabled-channel test guards ' + slot, locc, 'discharged' if okc else 'finding',
                         why='dispatch only when !(midCh < 16 && m_channelDisable[midCh])' if okc else 'notes of a disabled channel are delivered'))
 
     # ---- R4 ordering
     se = facts.fn(SEQ + '::MidiTrackRow::sortEvents')
+    # the buckets by what they receive (not by what they are called): a local vector that gets `push_back(events[i])` under
+    # `type == T`; the bucket filled in the final else (no positive type test) is the one that holds the note-ons
+    role = {}
+    for b, j, st in se.cfg.stmts():
+        for x in calls_in(st['s']):
+            if short(callee_name(x)) == 'push_back' and x.get('obj') is not None and strip(x['obj']).get('k') == 'DeclRefExpr' and x.get('a') and mentions(x['a'][0], member_named('events')):
+                bid_ = strip(x['obj'])['id']
+                tys = set()
+                def pos_types(fs):
+                    for f in fs:
+                        if f[0] == 'cmp' and f[1] == '==' and mentions(f[2], member_named('type')) and const_of(f[3]) is not None:
+                            tys.add(const_of(f[3]))
+                        if f[0] == 'or':
+                            for alt in f[1]:
+                                pos_types(alt)
+                pos_types(guard_facts(se, b, st))
+                role.setdefault(bid_, set()).update(tys if tys else {'other'})
+    def role_of(vid):
+        r = role.get(vid, set())
+        if E.get('T_NOTEOFF') in r:
+            return 'noteOffs'
+        if E.get('T_CTRLCHANGE') in r:
+            return 'controllers'
+        if r == {'other'}:
+            return 'anyOther'
+        if E.get('T_SYSEX') in r:
+            return 'sysEx'
+        if E.get('T_SPECIAL') in r:
+            return 'metas'
+        return None
     order = []
     for b, j, st in se.cfg.stmts():
         for x in calls_in(st['s']):
             if short(callee_name(x)) == 'insert' and mentions(x.get('obj'), member_named('events')) and len(x.get('a', [])) == 3:
-                nm = [short(y['n']) for y in walk(x['a'][1]) if y.get('k') == 'DeclRefExpr' and not y.get('fn')]
-                order.append(nm[0] if nm else show(x['a'][1]))
+                ids = [y['id'] for y in walk(x['a'][1]) if y.get('k') == 'DeclRefExpr' and not y.get('fn') and y.get('id') in role]
+                order.append(role_of(ids[0]) if ids else show(x['a'][1]))
     ok = 'noteOffs' in order and 'controllers' in order and 'anyOther' in order and order.index('noteOffs') < order.index('anyOther') and order.index('controllers') < order.index('anyOther') and order[-1] == 'anyOther'
-    obls.append(Obl('C07.R4', se.name, 'bucket order', se.loc, 'discharged' if ok else 'finding', why=' < '.join(order) if ok else 'concatenation order %s does not put note-offs and controllers before the note-on bucket' % order))
-    # note-ons are in anyOther: no classification branch tests T_NOTEON
-    non_bucket = not any(f[0] == 'cmp' and f[1] == '==' and const_of(f[3]) == E.get('T_NOTEON') for b, j, st in se.cfg.stmts() for x in calls_in(st['s'])
-                         if short(callee_name(x)) == 'push_back' and show(x.get('obj')) in ('noteOffs', 'controllers', 'metas', 'sysEx') for f in guard_facts(se, b, st))
+    obls.append(Obl('C07.R4', se.name, 'bucket order', se.loc, 'discharged' if ok else 'finding', why=' < '.join(str(o_) for o_ in order) if ok else 'concatenation order %s does not put note-offs and controllers before the note-on bucket' % order))
+    # note-ons are in the last bucket: no classification branch of an earlier bucket tests T_NOTEON
+    non_bucket = not any(E.get('T_NOTEON') in r_ for vid_, r_ in role.items() if role_of(vid_) != 'anyOther')
     obls.append(Obl('C07.R4', se.name, 'note-ons stay in the last bucket', se.loc, 'discharged' if non_bucket else 'finding', why='no early bucket accepts T_NOTEON'))
     forms = []
+    state_inits = []
+    # the locals that subscript the note-state table (the bool* parameter)
+    state_idx = set()
+    ns_id = se.params[0]['id'] if se.params else None
+    for x in walk(se.tree):
+        if isinstance(x, dict) and x.get('k') == 'ArraySubscriptExpr' and strip(x['b']).get('id') == ns_id and strip(x['i']).get('k') == 'DeclRefExpr':
+            state_idx.add(strip(x['i'])['id'])
     for b, j, st in se.cfg.stmts():
         if st['s'].get('k') == 'DeclStmt':
             for v in st['s']['decls']:
-                if v['n'] == 'note_i' and 'init' in v:
+                if v['id'] in state_idx and 'init' in v:
                     f = linear(v['init'])
                     forms.append((f, st['loc'], show(v['init'])))
+                    state_inits.append(v['init'])
     def canon(f):
         if f is None:
             return None
@@ -242,7 +282,19 @@ def analyse(facts, tier):
     cf = {canon(f[0]) for f in forms}
     # linear() treats `x & 0x7F` as opaque; compare renderings with the variable names normalised
     import re
-    rend = {re.sub(r'\b(e|j->|\(\*j\)\.|j\.)', '', re.sub(r'e\.|j->', '', r[2])) for r in forms}
+    def anon(e):
+        # the expression with every local's name replaced by `$` and `->` / `(*x).` read as `.`: what is computed, not from which variable
+        def rn_(x):
+            if isinstance(x, list):
+                return [rn_(y) for y in x]
+            if not isinstance(x, dict):
+                return x
+            x = {k_: (rn_(v_) if k_ not in ('t', 'ot') else v_) for k_, v_ in x.items()}
+            if x.get('k') == 'DeclRefExpr' and not x.get('parm') and not x.get('enumc') and 'c' not in x:
+                x['n'] = '$'
+            return x
+        return show(rn_(e)).replace('->', '.').replace('(*$)', '$')
+    rend = {anon(v_init) for v_init in state_inits}
     ok = len(forms) >= 2 and len(rend) == 1
     obls.append(Obl('C07.R4', se.name, 'note-state index is one expression', forms[0][1] if forms else se.loc, 'discharged' if ok else 'finding',
                     why='%d computations of %s' % (len(forms), list(rend)[0]) if ok else 'the note-state table is indexed inconsistently: %s' % sorted(rend)))
@@ -262,7 +314,11 @@ def analyse(facts, tier):
         for x in walk(st['s']):
             ap = assign_parts(x)
             if ap and short(strip(ap[0]).get('n', '')) == 'm_fullSongTimeLength':
-                if ap[2] == '=' and short(strip(ap[1]).get('n', '')) == 'time' and any(f[0] == 'cmp' and f[1] == '>' and 'm_fullSongTimeLength' in fact_str(f) for f in guard_facts(bt, b, st)):
+                # m_fullSongTimeLength = t under t > m_fullSongTimeLength, t the running time of the track (a local)
+                r_ = strip(ap[1])
+                if ap[2] == '=' and r_.get('k') == 'DeclRefExpr' and not r_.get('parm') and any(
+                        f[0] == 'cmp' and ((f[1] == '>' and strip(f[2]).get('id') == r_.get('id') and mentions(f[3], member_named('m_fullSongTimeLength'))) or
+                                           (f[1] == '<' and strip(f[3]).get('id') == r_.get('id') and mentions(f[2], member_named('m_fullSongTimeLength')))) for f in guard_facts(bt, b, st)):
                     mx = True
                 if ap[2] == '+=' and short(strip(ap[1]).get('n', '')) == 'm_postSongWaitDelay':
                     add = True
@@ -374,15 +430,17 @@ def r7(facts):
     from the song's initial tempo, not from where the previous track ended."""
     out = []
     pe = facts.fn(SEQ + '::parseEvent')
-    sp = [p for p in pe.params if p['n'] == 'status']
+    sp = [p for p in pe.params if p['n'] == 'status'] or [p for p in pe.params if (p['t'] or {}).get('ref') and (p['t'] or {}).get('w') == 32 and not (p['t'] or {}).get('const')]
     store = None
     sw = None
     # the status byte: the local the event type is derived from (`evType = (byte >> 4) & 0x0F`)
     status_src = set()
+    evtype_ids = set()
     for b, j, st in pe.cfg.stmts():
         if st['s'].get('k') == 'DeclStmt':
             for v in st['s']['decls']:
-                if v['n'] == 'evType' or (v.get('init') is not None and any(y.get('k') == 'BinaryOperator' and y['op'] == '>>' and const_of(y['r']) == 4 for y in walk(v['init']))):
+                if v.get('init') is not None and any(y.get('k') == 'BinaryOperator' and y['op'] == '>>' and const_of(y['r']) == 4 for y in walk(v['init'])):
+                    evtype_ids.add(v['id'])
                     for y in walk(v.get('init') or {}):
                         if y.get('k') == 'DeclRefExpr' and not y.get('parm'):
                             status_src.add(y.get('id'))
@@ -392,7 +450,7 @@ def r7(facts):
             if ap and sp and strip(ap[0]).get('id') == sp[0]['id'] and strip(ap[1]).get('k') == 'DeclRefExpr' and strip(ap[1]).get('id') in status_src:
                 store = (b, j, st)
     for bid, blk in pe.cfg.blocks.items():
-        if blk.get('term') == 'SwitchStmt' and 'cond' in blk and short(strip(blk['cond']).get('n', '')) == 'evType':
+        if blk.get('term') == 'SwitchStmt' and 'cond' in blk and strip(blk['cond']).get('id') in evtype_ids:
             sw = bid
     if sw is None or not sp:
         raise build.AnalysisBroken('C07.R7: switch(evType) / status parameter of parseEvent not found')
@@ -404,7 +462,8 @@ def r7(facts):
     loops = []
     def rec(t):
         if isinstance(t, dict):
-            if t.get('k') == 'ForStmt' and t.get('cond') is not None and 'trackCount' in show(t['cond']):
+            # the per-track loop: bounded by the number of tracks (m_trackData.size(), directly or through a local)
+            if t.get('k') == 'ForStmt' and t.get('cond') is not None and mentions(subst(t['cond'], single_defs(bt.d)), member_named('m_trackData')):
                 loops.append(t)
             for k2 in ('body', 'then', 'else', 'sub', 'init'):
                 v = t.get(k2)
@@ -425,9 +484,14 @@ def r7(facts):
             ap = assign_parts(x)
             if ap and strip(ap[0]).get('k') == 'DeclRefExpr' and not strip(ap[0]).get('parm') and mentions(ap[1], lambda y: 'tempo' in show(y).lower()):
                 assigned[strip(ap[0])['id']] = (short(strip(ap[0])['n']), x.get('ln'))
+        frac = {}
+        for x in walk(bt.tree):
+            if isinstance(x, dict) and x.get('k') == 'DeclStmt':
+                for v in x.get('decls', []):
+                    frac[v['id']] = 'fraction' in ((v.get('t') or {}).get('s') or '')
         for vid, (nm, ln) in assigned.items():
-            if 'tempo' not in nm.lower():
-                continue
+            if not frac.get(vid) and 'tempo' not in nm.lower():
+                continue        # the tempo in force is a fraction-typed local
             n += 1
             okk = vid in declared
             out.append(Obl('C07.R7', bt.name, 'per-track tempo variable ' + nm, '%s:%s' % (bt.file, ln), 'discharged' if okk else 'finding',
